@@ -120,7 +120,7 @@ class LG:
             "trailing_comma", "chain_multibody", "nested_call_arg", "cond_expr", "backslash", "comprehension", "where_single", "where_chain", "lambda_own_line_chain",
             "decoy_default_arg", "string_noise_line", "def_by_name", "def_by_name_docstring", "lambda_var", "three_chain_args",
             "def_nested_by_name", "kwarg_lambda", "factory_lambda", "kwarg_const_after", "user_wrapper_const", "two_param_elsewhere", "after_multiline_string", "cond_lambda_arg", "cond_lambda_arg", "cond_lambda_two_calls", "cond_lambda_two_calls", "list_lambda_arg", "or_lambda_arg", "dict_lambda_arg", "wrapped_lambda_arg",
-            "first_arg_wrapper_const", "backslash_string_decoy", "paren_lambda_names", "after_multiline_lambda_close", "unrelated_lambda_not_arg", "unrelated_lambda_not_arg",
+            "outer_bracket_continuation", "outer_bracket_continuation", "first_arg_wrapper_const", "backslash_string_decoy", "paren_lambda_names", "after_multiline_lambda_close", "unrelated_lambda_not_arg", "unrelated_lambda_not_arg",
         ])
         p = self.pname()
         B = lambda **kw: self.body(p, **kw)  # noqa
@@ -264,11 +264,26 @@ class LG:
         if t == "after_multiline_string":
             b1, f = B()
             return t, False, True, f'r = ds.Where(lambda q: q.title != """\n old: Select(lambda {p}: {p}.fake) """).Select(lambda {p}: {b1})  # """', f
+        if t == "outer_bracket_continuation":
+            # the body runs over several lines WITHOUT brackets of its own: it leans on a bracket opened on an earlier line
+            self.k += 1
+            m = self.k
+            cont = r.choice([f"{p}.a{m} +\n{{IND}}        {p}.b{m}", f"{p}.a{m}\n{{IND}}        .tail{m}", f"{p}.a{m} > {m}\n{{IND}}        and {p}.c{m} < 2",
+                             f"{p}.a{m} if {p}.b\n{{IND}}        else {p}.c{m}", f"{p}.a{m}  # lambda {p}: ({p}.no\n{{IND}}        * {p}.b{m}"])
+            form = r.choice(["first", "first", "second", "list"])
+            if form == "first":
+                return t, True, True, f"r = ds.{self.op()}(\n{{IND}}    lambda {p}: {cont}\n{{IND}})", "ml-outer"
+            if form == "second":
+                return t, False, True, f"r = keep(\n{{IND}}    FLAG, ds.Select(\n{{IND}}    lambda {p}: {cont}\n{{IND}}))", "ml-outer"
+            return t, False, True, f"r = ds.Select([\n{{IND}}    FLAG, lambda {p}: {cont}\n{{IND}}][1])", "ml-outer"
         if t == "first_arg_wrapper_const":
             # a constant-body lambda handed to a helper as its FIRST argument, the helper passes it on; another first-argument lambda
             # with the same parameter on the line
             self.k += 1
             b1, f = B()
+            if r.random() < 0.3:
+                # ... or two lambdas that differ in nothing but a default value (no part of the code python keeps)
+                return t, False, True, f"r = with_flag(lambda {p}, *, k_=1: {p}.x + k_, ds).Select(lambda {p}, *, k_=2: {p}.x + k_)", "default-only-difference"
             return t, False, True, r.choice([f"r = with_flag(lambda {p}: {self.k}, ds).Select(lambda {p}: {b1})", f"r = with_flag(lambda {p}: {self.k}, ds.Select(lambda {p}: {b1}))",
                                              f"r = with_flag(lambda {p}: 's{self.k}', ds.Select(lambda {p}: {b1}).Select(lambda {p}: {self.k}))"]), "constant-body"
         if t == "backslash_string_decoy":
